@@ -1,22 +1,14 @@
 use autosar_data::*;
-use autosar_data_specification::*;
 fn main() {
-    let walk = vh::specwalk::SpecWalk::new();
-    for info in &walk.types {
-        if let Some((_, name, _)) = info.via {
-            if name == ElementName::DataPrototypeIref {
-                let t = info.etype;
-                let mask = vh::genmodel::path_versions(&walk, t);
-                println!("type mode={:?} path_mask={mask:x} path={}", t.content_mode(), walk.path_to(t).iter().map(|(_, n, m)| format!("{n}:{m:x}")).collect::<Vec<_>>().join("/"));
-                for v in [AutosarVersion::Autosar_00053, AutosarVersion::Autosar_00049] {
-                    let (model, _f) = vh::genmodel::model_for_version(v);
-                    let mut k = 0;
-                    match vh::genmodel::build_to(&model, &walk, t, &mut k) {
-                        Ok(e) => println!("{v:?}: built {} ; allowed: {:?}", e.xml_path(), e.list_valid_sub_elements().iter().map(|i| (i.element_name.to_string(), i.is_allowed)).collect::<Vec<_>>()),
-                        Err(e) => println!("{v:?}: build failed {e}"),
-                    }
-                }
-            }
-        }
-    }
+    let hdr = "<?xml version=\"1.0\" encoding=\"utf-8\"?>\n<AUTOSAR xsi:schemaLocation=\"http://autosar.org/schema/r4.0 AUTOSAR_00050.xsd\" xmlns=\"http://autosar.org/schema/r4.0\" xmlns:xsi=\"http://www.w3.org/2001/XMLSchema-instance\">";
+    let base = format!("{hdr}<AR-PACKAGES><AR-PACKAGE><SHORT-NAME>p</SHORT-NAME></AR-PACKAGE></AR-PACKAGES></AUTOSAR>");
+    let doc = format!("{hdr}<AR-PACKAGES><AR-PACKAGE><SHORT-NAME>q</SHORT-NAME><ELEMENTS><SYSTEM><SHORT-NAME>x</SHORT-NAME></SYSTEM><ECU-INSTANCE><SHORT-NAME>x</SHORT-NAME></ECU-INSTANCE></ELEMENTS></AR-PACKAGE></AR-PACKAGES></AUTOSAR>");
+    let m = AutosarModel::new();
+    m.load_buffer(base.as_bytes(), "base.arxml", true).unwrap();
+    let before = m.root_element().serialize();
+    let r = m.load_buffer(doc.as_bytes(), "two.arxml", true);
+    println!("result: {:?}", r.as_ref().map(|_| "ok").map_err(|e| e.to_string()));
+    let after = m.root_element().serialize();
+    println!("changed: {} files={} membership of root: {:?}", before != after, m.files().count(), m.root_element().file_membership().map(|(l, s)| (l, s.len())));
+    println!("{}", after.replace('\n', "").chars().skip(190).take(400).collect::<String>());
 }
